@@ -70,6 +70,18 @@ PERM_ENTRY = [TA.option_point(max_permutation_cases=m, **o)
               for o in ({}, {'lstrip': True}, {'rstrip': True},
                         {'ignore_patterns': [r'\d+']},
                         {'ignore_patterns': [r'^a\d+$']})]
+# multiset layer: permitted cases 0..5 x at most one other option (48 points)
+MULTI_POINTS = [TA.option_point(max_permutation_cases=m, **o)
+                for m in TA.PERM_MPCS
+                for o in ({}, {'lstrip': True}, {'rstrip': True},
+                          {'ignore_substrings': ['X']},
+                          {'ignore_patterns': [r'\d+']},
+                          {'ignore_patterns': [r'^a\d+$']},
+                          {'remove_lines': ['b']},
+                          {'preprocess': 'drop_eacute'})]
+MULTI_ENTRY = [TA.option_point(max_permutation_cases=m, **o)
+               for m in (0, 2, 3)
+               for o in ({}, {'rstrip': True})]
 # long texts: default, each line-level option alone, permutation allowance
 LONG_POINTS = [TA.option_point(),
                TA.option_point(rstrip=True),
@@ -102,7 +114,10 @@ class C04(Check):
             'of 5, plain / with one further line altered at every position / '
             'with one further differing pair inserted at every position, '
             'swept over 768 option points (permitted cases 0..5) and through '
-            'the entry points; long-text cases = 200/1000/5000 lines or '
+            'the entry points; multiset cases = every pair of sequences of '
+            '3-4 lines (length 5: every multiset as reference) WITH repeats '
+            'over two 3-line alphabets under 48 option points, length 3 '
+            'through the entry points; long-text cases = 200/1000/5000 lines or '
             '5000/100000-character lines with one of 9 named deviations; '
             'entry-point cases = pairs over a 5-line alphabet x the 30 option '
             'points that set <= 2 (or all 7) options (thorough: a second '
@@ -141,7 +156,13 @@ class C04(Check):
              ('perm', 'permutations of 3-4 distinct lines, also with one '
                       'further line altered / one differing pair inserted at '
                       'every position, x 768 option points (limit 0..5)'),
+             ('multiset', 'sequences of 3-5 lines WITH repeats over two '
+                          '3-line alphabets: every actual sequence against '
+                          'every reference (multisets for length 5) x 48 '
+                          'option points (limit 0..5 x <= 1 other option)'),
              ('entry', 'public entry points on real files'),
+             ('multiset-entry', 'length-3 (thorough: 4) sequences with '
+                                'repeats through the entry points'),
              ('perm-entry', 'the permutation space through the entry points'),
              ('long', 'many lines (200..5000) and long lines (5000, 100000 '
                       'characters) with one named deviation'),
@@ -173,6 +194,17 @@ class C04(Check):
         elif layer == 'perm':
             for a, e in TA.permutation_pairs():
                 yield {'k': 'sweep', 'a': a, 'e': e, 'pts': 'perm'}
+        elif layer == 'multiset':
+            for alpha in TA.MULTI_ALPHABETS:
+                for a, e in TA.multiset_pairs(alpha):
+                    if a != e:
+                        yield {'k': 'sweep', 'a': a, 'e': e, 'pts': 'multi'}
+        elif layer == 'multiset-entry':
+            sizes = (3, 4) if tier == 'thorough' else (3,)
+            for a, e in TA.multiset_pairs(TA.MULTI_ALPHABETS[1], sizes):
+                if a != e:
+                    yield {'k': 'entry', 'a': a, 'e': e, 'fa': ['\n', 1],
+                           'fe': ['\n', 1], 'pts': 'multi-entry'}
         elif layer == 'perm-entry':
             lines = TA.PERM_LINES if tier == 'thorough' else TA.PERM_LINES[:4]
             extras = TA.PERM_EXTRA if tier == 'thorough' \
@@ -239,10 +271,13 @@ class C04(Check):
         self.full_kw = [TA.kwargs_of(p) for p in FULL]
         self.full_mo = [model_opts(p) for p in FULL]
         self.sets = {'full': FULL, 'q': ENTRY_Q, 'form': FORM_POINTS,
-                     'perm': PERM_FULL, 'perm-entry': PERM_ENTRY}
+                     'perm': PERM_FULL, 'perm-entry': PERM_ENTRY,
+                     'multi': MULTI_POINTS, 'multi-entry': MULTI_ENTRY}
         self.sweep_kw = {'full': (self.full_kw, self.full_mo),
                          'perm': ([TA.kwargs_of(p) for p in PERM_FULL],
-                                  [model_opts(p) for p in PERM_FULL])}
+                                  [model_opts(p) for p in PERM_FULL]),
+                         'multi': ([TA.kwargs_of(p) for p in MULTI_POINTS],
+                                   [model_opts(p) for p in MULTI_POINTS])}
 
     def teardown_worker(self):
         box = getattr(self, 'box', None)
